@@ -67,7 +67,8 @@ theorem setConn_setConn_same (w : World) (a b : Conn) (h : a.id = b.id) :
   simp only [Function.comp]
   by_cases hx : x.id = a.id
   · simp [hx, h]
-  · simp [hx]
+  · have : ¬ x.id = b.id := by rw [← h]; exact hx
+    simp [hx, this]
 
 theorem setConn_comm (w : World) (a b : Conn) (h : a.id ≠ b.id) :
     (w.setConn a).setConn b = (w.setConn b).setConn a := by
@@ -81,7 +82,7 @@ theorem setConn_comm (w : World) (a b : Conn) (h : a.id ≠ b.id) :
   · simp [hx, h]
   · by_cases hy : x.id = b.id
     · have : ¬ b.id = a.id := fun e => h e.symm
-      simp [hx, hy, this]
+      simp [hy, this]
     · simp [hx, hy]
 
 theorem ctx_conn_of {x : Ctx} {c : Nat} {cn : Conn} (h : x.w.conn? c = some cn) : x.conn c = cn := by
@@ -649,5 +650,1230 @@ theorem split_is_sequential_aux {cfg : Cfg} {c : Nat} {line : Str} {σ : CState}
         · rfl
     · rfl
   · rfl
+
+
+theorem ctx_conn_id (x : Ctx) (d : Nat) : (x.conn d).id = d := by
+  unfold Ctx.conn
+  cases h : x.w.conn? d with
+  | none => rfl
+  | some cn => exact conn?_id h
+
+theorem ctx_setConn_comm (x : Ctx) (a b : Conn) (h : a.id ≠ b.id) :
+    (x.setConn a).setConn b = (x.setConn b).setConn a := by
+  simp only [Ctx.setConn, setConn_comm _ _ _ h]
+
+/-! ### the welcome burst does not look at connection records -/
+
+theorem sendIsupport_setConn (cfg : Cfg) (client : Str) (x : Ctx) (cn : Conn) :
+    sendIsupport cfg client (x.setConn cn) = (sendIsupport cfg client x).setConn cn := by
+  unfold sendIsupport
+  generalize chunks 10 (sortStrs (supportTokens cfg)) = l
+  induction l generalizing x with
+  | nil => rfl
+  | cons t l ih => simp only [List.foldl_cons]; rw [← ih]; rfl
+
+theorem processLusers_setConn (cfg : Cfg) (client : Str) (x : Ctx) (cn : Conn) :
+    processLusers cfg client (x.setConn cn) = (processLusers cfg client x).setConn cn := by
+  unfold processLusers
+  simp only [Ctx.setConn_w, World.setConn_users, World.setConn_invisibleCount,
+    World.setConn_operatorsCount, World.setConn_channels, World.setConn_maxUsers]
+  by_cases h : x.w.invisibleCount > x.w.users.length <;> simp only [h, ↓reduceIte] <;> rfl
+
+theorem welcomeBurst_setConn (cfg : Cfg) (cn' : Conn) (um : Str) (x : Ctx) (cn : Conn) :
+    welcomeBurst cfg cn' um (x.setConn cn) = (welcomeBurst cfg cn' um x).setConn cn := by
+  unfold welcomeBurst
+  simp only
+  have e : ∀ (y : Ctx) t, (y.setConn cn).reply cfg t = (y.reply cfg t).setConn cn := fun _ _ => rfl
+  simp only [e, sendIsupport_setConn, processLusers_setConn]
+  rfl
+
+theorem sendIsupport_w (cfg : Cfg) (client : Str) (x : Ctx) : (sendIsupport cfg client x).w = x.w := by
+  unfold sendIsupport
+  generalize chunks 10 (sortStrs (supportTokens cfg)) = l
+  induction l generalizing x with
+  | nil => rfl
+  | cons t l ih => simp only [List.foldl_cons]; rw [ih]; rfl
+
+theorem processLusers_w (cfg : Cfg) (client : Str) (x : Ctx) :
+    (processLusers cfg client x).w = x.w ∨
+    (processLusers cfg client x).w = x.w.panic "lusers: users - invisible underflow" := by
+  unfold processLusers
+  simp only [Ctx.reply_w]
+  split
+  · right; rfl
+  · left; rfl
+
+theorem welcomeBurst_w (cfg : Cfg) (cn' : Conn) (um : Str) (x : Ctx) :
+    (welcomeBurst cfg cn' um x).w = x.w ∨
+    (welcomeBurst cfg cn' um x).w = x.w.panic "lusers: users - invisible underflow" := by
+  unfold welcomeBurst processMotd
+  simp only [Ctx.reply_w]
+  rcases processLusers_w cfg cn'.clientName
+    (sendIsupport cfg cn'.clientName ((((x.reply cfg _).reply cfg _).reply cfg _).reply cfg _)) with h | h
+  · left; rw [h, sendIsupport_w]; rfl
+  · right; rw [h, sendIsupport_w]; rfl
+
+theorem welcomeBurst_conns (cfg : Cfg) (cn' : Conn) (um : Str) (x : Ctx) :
+    (welcomeBurst cfg cn' um x).w.conns = x.w.conns := by
+  rcases welcomeBurst_w cfg cn' um x with h | h <;> rw [h] <;> rfl
+
+theorem welcomeBurst_users (cfg : Cfg) (cn' : Conn) (um : Str) (x : Ctx) :
+    (welcomeBurst cfg cn' um x).w.users = x.w.users := by
+  rcases welcomeBurst_w cfg cn' um x with h | h <;> rw [h] <;> rfl
+
+theorem welcomeBurst_queued (cfg : Cfg) (cn' : Conn) (um : Str) (x : Ctx) :
+    (welcomeBurst cfg cn' um x).queued = x.queued := by
+  have e1 : ∀ (client : Str) (y : Ctx), (sendIsupport cfg client y).queued = y.queued := by
+    intro client y
+    unfold sendIsupport
+    generalize chunks 10 (sortStrs (supportTokens cfg)) = l
+    induction l generalizing y with
+    | nil => rfl
+    | cons t l ih => simp only [List.foldl_cons]; rw [ih]; rfl
+  have e2 : ∀ (client : Str) (y : Ctx), (processLusers cfg client y).queued = y.queued := by
+    intro client y
+    unfold processLusers
+    simp only [Ctx.reply_queued]
+    split <;> rfl
+  unfold welcomeBurst processMotd
+  simp only [Ctx.reply_queued, e2, e1]
+
+
+/-! ### the sections of the registration path are independent of every other connection -/
+
+theorem addUser_setConn (w : World) (nick : Str) (u : User) (cn : Conn) :
+    (w.setConn cn).addUser nick u = (w.addUser nick u).setConn cn := by
+  rcases w with ⟨users, channels, wallops, ic, oc, mu, hist, conns, cc, sq, cmdc, pan⟩
+  cases h1 : u.modes.invisible <;> cases h2 : u.modes.wallops <;> cases h3 : u.modes.isLocalOper <;>
+  simp only [World.addUser, World.setConn, h1, h2, h3, ↓reduceIte, Bool.false_eq_true] <;>
+  (split <;> rfl)
+
+theorem commitWith_comm (cfg : Cfg) (d : Nat) (r : Bool) (cnd : Conn) (x : Ctx) (cn : Conn)
+    (h : cn.id ≠ cnd.id) :
+    commitWith cfg d r cnd (x.setConn cn) = (commitWith cfg d r cnd x).setConn cn := by
+  unfold commitWith
+  cases cnd.nick with
+  | none => rfl
+  | some nick =>
+    simp only [Ctx.setConn_w, World.setConn_users]
+    split
+    · split
+      · rw [ctx_setConn_comm]
+        · rfl
+        · exact h
+      · have e : ∀ (y : Ctx) (nick : Str) (u : User),
+            (y.setConn cn).modifyW (fun w => w.addUser nick u) =
+              (y.modifyW (fun w => w.addUser nick u)).setConn cn := by
+          intro y nick u; simp only [Ctx.modifyW, Ctx.setConn, addUser_setConn]
+        rw [ctx_setConn_comm _ _ _ (by exact h), e, welcomeBurst_setConn]
+        split
+        · rw [ctx_setConn_comm]; exact h
+        · rfl
+    · rw [ctx_setConn_comm]
+      · rfl
+      · exact h
+
+
+theorem welcomeBurst_conn? (cfg : Cfg) (cn' : Conn) (um : Str) (x : Ctx) (c : Nat) :
+    (welcomeBurst cfg cn' um x).w.conn? c = x.w.conn? c := by
+  unfold World.conn?; rw [welcomeBurst_conns]
+
+theorem addUser_conn? (w : World) (nick : Str) (u : User) (c : Nat) :
+    (w.addUser nick u).conn? c = w.conn? c := by
+  rcases w with ⟨users, channels, wallops, ic, oc, mu, hist, conns, cc, sq, cmdc, pan⟩
+  cases h1 : u.modes.invisible <;> cases h2 : u.modes.wallops <;> cases h3 : u.modes.isLocalOper <;>
+  simp only [World.addUser, h1, h2, h3, ↓reduceIte, Bool.false_eq_true] <;>
+  (split <;> rfl)
+
+theorem panic_conn? (w : World) (s : String) (c : Nat) : (w.panic s).conn? c = w.conn? c := rfl
+
+theorem commitWith_conns (cfg : Cfg) (d : Nat) (r : Bool) (cnd : Conn) (x : Ctx) (c : Nat)
+    (h : cnd.id ≠ c) : (commitWith cfg d r cnd x).w.conn? c = x.w.conn? c := by
+  unfold commitWith
+  cases cnd.nick with
+  | none => rfl
+  | some nick =>
+    simp only
+    split
+    · split
+      · simp only [Ctx.panic_w, panic_conn?, Ctx.setConn_w]
+        rw [conn?_setConn_ne]; exact h
+      · split
+        · simp only [Ctx.setConn_w]
+          rw [conn?_setConn_ne]
+          · rw [welcomeBurst_conn?]
+            simp only [Ctx.modifyW_w, Ctx.setConn_w, addUser_conn?]
+            rw [conn?_setConn_ne]; exact h
+          · exact h
+        · simp only [Ctx.panic_w, panic_conn?]
+          rw [welcomeBurst_conn?]
+          simp only [Ctx.modifyW_w, Ctx.setConn_w, addUser_conn?]
+          rw [conn?_setConn_ne]; exact h
+    · simp only [Ctx.reply_w, Ctx.setConn_w]
+      rw [conn?_setConn_ne]; exact h
+
+theorem decideStep_comm (cfg : Cfg) (d : Nat) (x : Ctx) (cn : Conn) (h : cn.id ≠ d) :
+    decideStep cfg d (x.setConn cn) =
+      ⟨(decideStep cfg d x).pc, (decideStep cfg d x).x.setConn cn⟩ := by
+  have hid := ctx_conn_id x d
+  unfold decideStep
+  simp only [ctx_conn_setConn_ne x cn d h]
+  cases authDecision cfg (x.conn d) with
+  | notReady => rfl
+  | maskMismatch => rfl
+  | decided good r =>
+    cases good with
+    | true =>
+      simp only [↓reduceIte]
+      rw [ctx_setConn_comm]
+      exact fun e => h (e.trans hid)
+    | false =>
+      simp only [Bool.false_eq_true, ↓reduceIte]
+      rw [ctx_setConn_comm]
+      · rfl
+      · exact fun e => h (e.trans hid)
+
+theorem decideStep_conns (cfg : Cfg) (d : Nat) (x : Ctx) (c : Nat) (h : d ≠ c) :
+    (decideStep cfg d x).x.w.conn? c = x.w.conn? c := by
+  have hid := ctx_conn_id x d
+  unfold decideStep
+  simp only
+  cases authDecision cfg (x.conn d) with
+  | notReady => rfl
+  | maskMismatch => rfl
+  | decided good r =>
+    cases good with
+    | true => exact conn?_setConn_ne _ _ _ (by simpa [hid] using h)
+    | false => exact conn?_setConn_ne _ _ _ (by simpa [hid] using h)
+
+theorem secIndep_touch (cfg : Cfg) {c d : Nat} (h : d ≠ c) : SecIndep cfg c (.touch d) :=
+  ⟨h, fun _ _ _ _ => rfl, fun _ _ => rfl⟩
+
+theorem secIndep_count (cfg : Cfg) {c d : Nat} (i : Nat) (h : d ≠ c) : SecIndep cfg c (.count d i) :=
+  ⟨h, fun _ _ _ _ => rfl, fun _ _ => rfl⟩
+
+theorem secIndep_nickCheck (cfg : Cfg) {c d : Nat} (n : Str) (h : d ≠ c) :
+    SecIndep cfg c (.nickCheck d n) where
+  other := h
+  comm p x cn hcn := by
+    have hne : cn.id ≠ d := hcn ▸ h.symm
+    have hid := ctx_conn_id x d
+    simp only [execSection, nickCheckStep, ctx_conn_setConn_ne x cn d hne, Ctx.setConn_w,
+      World.setConn_users]
+    split
+    · rfl
+    · split
+      · rfl
+      · simp only
+        rw [ctx_setConn_comm]
+        exact fun e => hne (e.trans hid)
+  conn_eq p x := by
+    have hid := ctx_conn_id x d
+    simp only [execSection, nickCheckStep]
+    split
+    · rfl
+    · split
+      · rfl
+      · exact conn?_setConn_ne _ _ _ (by simpa [Conn.setNick, Conn.updateSource, hid] using h)
+
+theorem secIndep_authDecide (cfg : Cfg) {c d : Nat} (h : d ≠ c) : SecIndep cfg c (.authDecide d) where
+  other := h
+  comm p x cn hcn := by
+    have hne : cn.id ≠ d := hcn ▸ h.symm
+    simp only [execSection]
+    split
+    · exact decideStep_comm cfg d x cn hne
+    · rfl
+  conn_eq p x := by
+    simp only [execSection]
+    split
+    · exact decideStep_conns cfg d x c h
+    · rfl
+
+theorem secIndep_authCommit (cfg : Cfg) {c d : Nat} (h : d ≠ c) : SecIndep cfg c (.authCommit d) where
+  other := h
+  comm p x cn hcn := by
+    have hne : cn.id ≠ d := hcn ▸ h.symm
+    have hid := ctx_conn_id x d
+    simp only [execSection]
+    split
+    · simp only [commitStep_eq, ctx_conn_setConn_ne x cn d hne]
+      rw [commitWith_comm]
+      exact fun e => hne (e.trans hid)
+    · rfl
+  conn_eq p x := by
+    have hid := ctx_conn_id x d
+    simp only [execSection]
+    split
+    · simp only [commitStep_eq]
+      exact commitWith_conns cfg d _ _ x c (by simpa [hid] using h)
+    · rfl
+
+theorem secIndep_prelude (cfg : Cfg) {c d : Nat} (cmd : Command) (h : d ≠ c) :
+    SecIndep cfg c (.prelude d cmd) where
+  other := h
+  comm p x cn hcn := by
+    have hne : cn.id ≠ d := hcn ▸ h.symm
+    have hid := ctx_conn_id x d
+    have hne' : ∀ cn' : Conn, cn'.id = (x.conn d).id → cn.id ≠ cn'.id :=
+      fun cn' e e' => hne (e'.trans (e.trans hid))
+    simp only [execSection, preludeStep, ctx_conn_setConn_ne x cn d hne]
+    split
+    · rfl
+    · split
+      · rw [ctx_setConn_comm]
+        · exact decideStep_comm cfg d _ cn hne
+        · exact hne' _ rfl
+      · rw [ctx_setConn_comm]
+        · exact decideStep_comm cfg d _ cn hne
+        · exact hne' _ rfl
+      · rw [ctx_setConn_comm]
+        · exact decideStep_comm cfg d _ cn hne
+        · exact hne' _ rfl
+      · rfl
+  conn_eq p x := by
+    have hid := ctx_conn_id x d
+    have key : ∀ cn' : Conn, cn'.id = (x.conn d).id → (x.setConn cn').w.conn? c = x.w.conn? c :=
+      fun cn' e => conn?_setConn_ne _ _ _ (by rw [e, hid]; exact h)
+    simp only [execSection, preludeStep]
+    split
+    · rfl
+    · split
+      · rw [decideStep_conns cfg d _ c h]; refine key _ ?_; rfl
+      · rw [decideStep_conns cfg d _ c h]; refine key _ ?_; rfl
+      · rw [decideStep_conns cfg d _ c h]; refine key _ ?_; rfl
+      · rfl
+
+/-- the three sections of another connection's unregistered NICK are independent of `c` -/
+theorem secIndep_nickSections (cfg : Cfg) {c d : Nat} (n : Str) (h : d ≠ c) :
+    ∀ s ∈ nickSections d n, SecIndep cfg c s := by
+  intro s hs
+  simp only [nickSections, List.mem_cons, List.not_mem_nil, or_false] at hs
+  rcases hs with rfl | rfl | rfl
+  · exact secIndep_nickCheck cfg n h
+  · exact secIndep_authDecide cfg h
+  · exact secIndep_authCommit cfg h
+
+
+/-! ### serialisability of the unregistered NICK -/
+
+theorem decideOut_comm {cfg : Cfg} {c : Nat} {cn : Conn} {f : CState → CState} (hf : IndepT c f)
+    (hid : cn.id = c) (σ : CState) : f (decideOut cfg c cn σ) = decideOut cfg c cn (f σ) := by
+  unfold decideOut
+  cases authDecision cfg cn with
+  | notReady => simp only [hf.comm_pc]
+  | maskMismatch => simp only [hf.comm_pc, hf.comm_dir]
+  | decided good r =>
+    cases good with
+    | true => simp only [hf.comm_pc]; rw [hf.comm_conn]; exact hid
+    | false => simp only [hf.comm_pc, hf.comm_dir]; rw [hf.comm_conn]; exact hid
+
+theorem decideOut_pc_idle {cfg : Cfg} {c : Nat} {cn : Conn}
+    (h : ∀ r, authDecision cfg cn ≠ .decided true r) (σ : CState) :
+    (decideOut cfg c cn σ).pc c = .idle := by
+  unfold decideOut
+  cases hd : authDecision cfg cn with
+  | notReady => simp
+  | maskMismatch => simp
+  | decided good r =>
+    cases good with
+    | true => exact absurd hd (h r)
+    | false => simp
+
+theorem decideOut_good {cfg : Cfg} {c : Nat} {cn : Conn} {r : Bool}
+    (h : authDecision cfg cn = .decided true r) (σ : CState) :
+    decideOut cfg c cn σ = (σ.setConn { cn with authenticated := true }).setPc c (.toCommit r) := by
+  unfold decideOut; rw [h]
+
+/-- A1 (nick free), then sections independent of `c`, then A2 -/
+theorem run_a_f_b {cfg : Cfg} {c : Nat} {n : Str} {σ : CState} {cn : Conn} {f : CState → CState}
+    (hf : IndepT c f) (h : σ.w.conn? c = some cn) (ha : cn.authenticated = false)
+    (ht : Map.contains n σ.w.users = false) :
+    stepSection cfg (.authDecide c) (f (stepSection cfg (.nickCheck c n) σ)) =
+      decideOut cfg c (cn.setNick n) ((f σ).setConn (cn.setNick n)) := by
+  have hid : cn.id = c := conn?_id h
+  have hid1 : (cn.setNick n).id = c := hid
+  rw [step_nickCheck_free h ha ht, hf.comm_pc, hf.comm_conn _ _ hid1]
+  have h1 : (((f σ).setConn (cn.setNick n)).setPc c .toDecide).w.conn? c = some (cn.setNick n) :=
+    conn?_setConn_self _ ((hf.conn_eq σ).trans h) hid
+  rw [step_authDecide (by simp) h1, decideOut_setPc]
+
+theorem serial_first {cfg : Cfg} {c : Nat} {n : Str} {σ : CState} {cn : Conn} {F G : List Section}
+    (hF : ∀ s ∈ F, SecIndep cfg c s) (hG : ∀ s ∈ G, SecIndep cfg c s)
+    (h : σ.w.conn? c = some cn) (hpc : σ.pc c = .idle) (he : Early cfg n cn σ.w) :
+    runSections cfg (nickInterleaved c n F G) σ =
+      runSections cfg (nickSections c n ++ F ++ G) σ := by
+  have iF := indepT_run hF
+  have iG := indepT_run hG
+  have hid : cn.id = c := conn?_id h
+  simp only [nickInterleaved, nickSections, List.cons_append, List.nil_append, runSections_cons,
+    runSections_append, runSections_nil]
+  cases ha : cn.authenticated with
+  | true =>
+    rw [step_nickCheck_auth h ha]
+    have p1 : (runSections cfg F σ).pc c = .idle := (iF.pc_eq σ).trans hpc
+    rw [step_authDecide_skip (σ := runSections cfg F σ) (by rw [p1]; simp)]
+    have p2 : (runSections cfg G (runSections cfg F σ)).pc c = .idle := (iG.pc_eq _).trans p1
+    rw [step_authCommit_skip (σ := runSections cfg G _) (by rw [p2]; simp)]
+    rw [step_authDecide_skip (σ := σ) (by rw [hpc]; simp),
+      step_authCommit_skip (σ := σ) (by rw [hpc]; simp)]
+  | false =>
+    cases ht : Map.contains n σ.w.users with
+    | true =>
+      rw [step_nickCheck_taken h ha ht]
+      generalize (σ.addDir c [srvLine cfg (ErrNicknameInUse433 cn.clientName n)]) = σ'
+      rw [iF.comm_pc]
+      rw [step_authDecide_skip (σ := (runSections cfg F σ').setPc c .idle) (by simp)]
+      rw [iG.comm_pc]
+      rw [step_authCommit_skip (σ := (runSections cfg G _).setPc c .idle) (by simp)]
+      rw [step_authDecide_skip (σ := σ'.setPc c .idle) (by simp),
+        step_authCommit_skip (σ := σ'.setPc c .idle) (by simp), iF.comm_pc, iG.comm_pc]
+    | false =>
+      have hng : ∀ r, authDecision cfg (cn.setNick n) ≠ .decided true r := by
+        rcases he with e | e | e
+        · rw [ha] at e; cases e
+        · rw [ht] at e; cases e
+        · exact e
+      have hid1 : (cn.setNick n).id = c := hid
+      rw [run_a_f_b iF h ha ht, decideOut_comm iG hid1,
+        step_authCommit_skip (by intro r; rw [decideOut_pc_idle hng]; simp)]
+      have := run_a_f_b (cfg := cfg) (f := fun σ => σ) (IndepT.id c) h ha ht
+      rw [this, step_authCommit_skip (by intro r; rw [decideOut_pc_idle hng]; simp),
+        decideOut_comm iF hid1, decideOut_comm iG hid1, iF.comm_conn _ _ hid1, iG.comm_conn _ _ hid1]
+
+
+/-- A1 (free), others, A2 (good), others: the state just before A3 -/
+theorem run_before_commit {cfg : Cfg} {c : Nat} {n : Str} {σ : CState} {cn : Conn} {r : Bool}
+    {f g : CState → CState} (hf : IndepT c f) (hg : IndepT c g)
+    (h : σ.w.conn? c = some cn) (ha : cn.authenticated = false)
+    (ht : Map.contains n σ.w.users = false)
+    (hd : authDecision cfg (cn.setNick n) = .decided true r) :
+    g (stepSection cfg (.authDecide c) (f (stepSection cfg (.nickCheck c n) σ))) =
+      ((g (f σ)).setConn { cn.setNick n with authenticated := true }).setPc c (.toCommit r) := by
+  have hid : cn.id = c := conn?_id h
+  have hid2 : ({ cn.setNick n with authenticated := true } : Conn).id = c := hid
+  have hid1 : (cn.setNick n).id = c := hid
+  rw [run_a_f_b hf h ha ht, decideOut_good hd, hg.comm_pc, hg.comm_conn _ _ hid2,
+    hg.comm_conn _ _ hid1, CState.setConn_setConn]
+  rfl
+
+theorem serial_last {cfg : Cfg} {c : Nat} {n : Str} {σ : CState} {cn : Conn} {F G : List Section}
+    {r : Bool} (hF : ∀ s ∈ F, SecIndep cfg c s) (hG : ∀ s ∈ G, SecIndep cfg c s)
+    (h : σ.w.conn? c = some cn) (ha : cn.authenticated = false)
+    (ht : Map.contains n σ.w.users = false)
+    (hd : authDecision cfg (cn.setNick n) = .decided true r)
+    (ht2 : Map.contains n (runSections cfg (F ++ G) σ).w.users = false) :
+    runSections cfg (nickInterleaved c n F G) σ =
+      runSections cfg (F ++ G ++ nickSections c n) σ := by
+  have iF := indepT_run hF
+  have iG := indepT_run hG
+  simp only [nickInterleaved, nickSections, runSections_cons, runSections_append,
+    runSections_nil, List.append_assoc] at ht2 ⊢
+  have h2 : (runSections cfg G (runSections cfg F σ)).w.conn? c = some cn :=
+    (iG.conn_eq _).trans ((iF.conn_eq _).trans h)
+  rw [run_before_commit iF iG h ha ht hd]
+  rw [run_before_commit (f := fun σ => σ) (g := fun σ => σ) (IndepT.id c) (IndepT.id c) h2 ha ht2 hd]
+
+theorem serial_corner {cfg : Cfg} {c : Nat} {n : Str} {σ : CState} {cn : Conn} {F G : List Section}
+    {r : Bool} (hF : ∀ s ∈ F, SecIndep cfg c s) (hG : ∀ s ∈ G, SecIndep cfg c s)
+    (h : σ.w.conn? c = some cn) (hpc : σ.pc c = .idle) (ha : cn.authenticated = false)
+    (ht : Map.contains n σ.w.users = false)
+    (hd : authDecision cfg (cn.setNick n) = .decided true r)
+    (ht2 : Map.contains n (runSections cfg (F ++ G) σ).w.users = true) :
+    runSections cfg (nickInterleaved c n F G) σ =
+      ((runSections cfg (F ++ G) σ).setConn (cornerConn cn n r)).addDir c
+        [srvLine cfg (ErrNicknameInUse433 n n)] ∧
+    runSections cfg (F ++ G ++ nickSections c n) σ =
+      (runSections cfg (F ++ G) σ).addDir c [srvLine cfg (ErrNicknameInUse433 cn.clientName n)] := by
+  have iF := indepT_run hF
+  have iG := indepT_run hG
+  simp only [nickInterleaved, nickSections, runSections_cons, runSections_append,
+    runSections_nil, List.append_assoc] at ht2 ⊢
+  have h2 : (runSections cfg G (runSections cfg F σ)).w.conn? c = some cn :=
+    (iG.conn_eq _).trans ((iF.conn_eq _).trans h)
+  have p2 : (runSections cfg G (runSections cfg F σ)).pc c = .idle :=
+    (iG.pc_eq _).trans ((iF.pc_eq _).trans hpc)
+  have hid : cn.id = c := conn?_id h
+  constructor
+  · rw [run_before_commit iF iG h ha ht hd]
+    generalize runSections cfg G (runSections cfg F σ) = σ2 at *
+    have hid2 : ({ cn.setNick n with authenticated := true } : Conn).id = c := hid
+    have h3 : ((σ2.setConn { cn.setNick n with authenticated := true }).setPc c (.toCommit r)).w.conn? c
+        = some { cn.setNick n with authenticated := true } := conn?_setConn_self _ h2 hid2
+    rw [step_authCommit_taken (r := r) (n := n) (by simp) h3 rfl ht2]
+    simp only [CState.setPc_setConn, CState.setPc_addDir, CState.setPc_setPc]
+    rw [CState.setPc_self _ _ _ (by simpa using p2), CState.setConn_setConn]
+    · simp only [cornerConn, Conn.setNick, Conn.updateSource, ha]
+    · rfl
+  · generalize runSections cfg G (runSections cfg F σ) = σ2 at *
+    rw [step_nickCheck_taken h2 ha ht2, step_authDecide_skip (by simp), step_authCommit_skip (by simp)]
+    rw [← CState.setPc_addDir, CState.setPc_self _ _ _ p2]
+
+
+/-! ### interleavings -/
+
+section Ilv
+variable {α : Type}
+
+theorem Interleave.nil_left : ∀ (ys : List α), Interleave [] ys ys
+  | [] => .nil
+  | _ :: ys => .right (Interleave.nil_left ys)
+
+theorem Interleave.nil_right : ∀ (xs : List α), Interleave xs [] xs
+  | [] => .nil
+  | _ :: xs => .left (Interleave.nil_right xs)
+
+theorem Interleave.eq_of_nil_right {xs l : List α} (h : Interleave xs [] l) : l = xs := by
+  generalize hy : ([] : List α) = ys at h
+  induction h with
+  | nil => rfl
+  | left _ ih => rw [ih hy]
+  | right _ _ => cases hy
+
+theorem Interleave.eq_of_nil_left {ys l : List α} (h : Interleave [] ys l) : l = ys := by
+  generalize hx : ([] : List α) = xs at h
+  induction h with
+  | nil => rfl
+  | left _ _ => cases hx
+  | right _ ih => rw [ih hx]
+
+theorem Interleave.symm {xs ys l : List α} (h : Interleave xs ys l) : Interleave ys xs l := by
+  induction h with
+  | nil => exact .nil
+  | left _ ih => exact .right ih
+  | right _ ih => exact .left ih
+
+theorem interleavingsAux_spec (x : α) (xs : List α) (rec : List α → List (List α))
+    (hrec : ∀ ys l, l ∈ rec ys ↔ Interleave xs ys l) (ys l : List α) :
+    l ∈ interleavingsAux x xs rec ys ↔ Interleave (x :: xs) ys l := by
+  induction ys generalizing l with
+  | nil =>
+    simp only [interleavingsAux, List.mem_singleton]
+    constructor
+    · rintro rfl; exact Interleave.nil_right _
+    · exact fun h => h.eq_of_nil_right
+  | cons y ys ih =>
+    simp only [interleavingsAux, List.mem_append, List.mem_map]
+    constructor
+    · rintro (⟨l', hl', rfl⟩ | ⟨l', hl', rfl⟩)
+      · exact .left ((hrec _ _).mp hl')
+      · exact .right ((ih _).mp hl')
+    · intro h
+      cases h with
+      | left h' => exact .inl ⟨_, (hrec _ _).mpr h', rfl⟩
+      | right h' => exact .inr ⟨_, (ih _).mpr h', rfl⟩
+
+theorem mem_interleavings (xs ys l : List α) : l ∈ interleavings xs ys ↔ Interleave xs ys l := by
+  induction xs generalizing ys l with
+  | nil =>
+    simp only [interleavings, List.mem_singleton]
+    constructor
+    · rintro rfl; exact Interleave.nil_left _
+    · exact fun h => h.eq_of_nil_left
+  | cons x xs ih =>
+    simp only [interleavings]
+    exact interleavingsAux_spec x xs _ (fun ys l => ih ys l) ys l
+
+theorem Interleave.snoc_left {xs ys l : List α} (x : α) (h : Interleave xs ys l) :
+    Interleave (xs ++ [x]) ys (l ++ [x]) := by
+  induction h with
+  | nil => exact .left .nil
+  | left _ ih => exact .left ih
+  | right _ ih => exact .right ih
+
+theorem Interleave.snoc_right {xs ys l : List α} (y : α) (h : Interleave xs ys l) :
+    Interleave xs (ys ++ [y]) (l ++ [y]) := (h.symm.snoc_left y).symm
+
+theorem Interleave.reverse {xs ys l : List α} (h : Interleave xs ys l) :
+    Interleave xs.reverse ys.reverse l.reverse := by
+  induction h with
+  | nil => exact .nil
+  | left _ ih => simp only [List.reverse_cons]; exact ih.snoc_left _
+  | right _ ih => simp only [List.reverse_cons]; exact ih.snoc_right _
+
+/-- the last section of an interleaving is the last of one of the two lists -/
+theorem Interleave.last_cases {xs ys l : List α} {x y : α}
+    (h : Interleave (xs ++ [x]) (ys ++ [y]) l) :
+    (∃ l', l = l' ++ [y] ∧ Interleave (xs ++ [x]) ys l') ∨
+    (∃ l', l = l' ++ [x] ∧ Interleave xs (ys ++ [y]) l') := by
+  have hr := h.reverse
+  simp only [List.reverse_append, List.reverse_cons, List.reverse_nil, List.nil_append,
+    List.singleton_append] at hr
+  generalize hl : l.reverse = lr at hr
+  have hl' : l = lr.reverse := by rw [← hl, List.reverse_reverse]
+  cases hr with
+  | left h' =>
+    right
+    refine ⟨_, by rw [hl', List.reverse_cons], ?_⟩
+    have := h'.reverse
+    simpa using this
+  | right h' =>
+    left
+    refine ⟨_, by rw [hl', List.reverse_cons], ?_⟩
+    have := h'.reverse
+    simpa using this
+
+/-- where the head of the second list sits -/
+theorem Interleave.split_right {xs ys l : List α} {y : α} (h : Interleave xs (y :: ys) l) :
+    ∃ p xs' l', xs = p ++ xs' ∧ l = p ++ y :: l' ∧ Interleave xs' ys l' := by
+  generalize hy : y :: ys = ys0 at h
+  induction h with
+  | nil => cases hy
+  | left h' ih =>
+    rename_i x xs ys' zs
+    obtain ⟨p, xs', l', e1, e2, e3⟩ := ih hy
+    exact ⟨x :: p, xs', l', by rw [e1]; rfl, by rw [e2]; rfl, e3⟩
+  | right h' _ =>
+    cases hy
+    exact ⟨[], _, _, rfl, rfl, h'⟩
+
+end Ilv
+
+
+/-! ### the race of two connections for one nick -/
+
+theorem run_nick_taken {cfg : Cfg} {c : Nat} {n : Str} {σ : CState} {cn : Conn}
+    (h : σ.w.conn? c = some cn) (ha : cn.authenticated = false) (hpc : σ.pc c = .idle)
+    (ht : Map.contains n σ.w.users = true) :
+    runSections cfg (nickSections c n) σ =
+      σ.addDir c [srvLine cfg (ErrNicknameInUse433 cn.clientName n)] := by
+  simp only [nickSections, runSections_cons, runSections_nil]
+  rw [step_nickCheck_taken h ha ht, step_authDecide_skip (by simp), step_authCommit_skip (by simp),
+    CState.setPc_self _ _ _ (by simpa using hpc)]
+
+theorem lift_others (σ : CState) (c : Nat) (t : TCtx) (d : Nat) (h : d ≠ c) :
+    (lift σ c t).pc d = σ.pc d ∧ (lift σ c t).dir d = σ.dir d := by
+  simp [lift, h]
+
+theorem addUser_users (w : World) (nick : Str) (u : User) :
+    (w.addUser nick u).users = Map.insert nick u w.users := by
+  rcases w with ⟨users, channels, wallops, ic, oc, mu, hist, conns, cc, sq, cmdc, pan⟩
+  cases h1 : u.modes.invisible <;> cases h2 : u.modes.wallops <;> cases h3 : u.modes.isLocalOper <;>
+  simp only [World.addUser, h1, h2, h3, ↓reduceIte, Bool.false_eq_true] <;>
+  (split <;> rfl)
+
+theorem addUser_conns (w : World) (nick : Str) (u : User) :
+    (w.addUser nick u).conns = w.conns := by
+  rcases w with ⟨users, channels, wallops, ic, oc, mu, hist, conns, cc, sq, cmdc, pan⟩
+  cases h1 : u.modes.invisible <;> cases h2 : u.modes.wallops <;> cases h3 : u.modes.isLocalOper <;>
+  simp only [World.addUser, h1, h2, h3, ↓reduceIte, Bool.false_eq_true] <;>
+  (split <;> rfl)
+
+theorem setConn_conns_congr {w w' : World} (cn : Conn) (h : w.conns = w'.conns) :
+    (w.setConn cn).conns = (w'.setConn cn).conns := by
+  simp only [World.setConn, h]
+
+theorem conn?_congr {w w' : World} (h : w.conns = w'.conns) (d : Nat) : w.conn? d = w'.conn? d := by
+  simp only [World.conn?, h]
+
+/-- A3 in a world where the nick is free and the one-shot senders are still there -/
+theorem commitWith_win {cfg : Cfg} {c : Nat} {r : Bool} {cnG : Conn} {n : Str} (x : Ctx)
+    (hn : cnG.nick = some n) (ht : Map.contains n x.w.users = false)
+    (hs : cnG.hasSender = true) (hq : cnG.hasQuitSender = true) :
+    (∃ u : User, u.owner = c ∧ (commitWith cfg c r cnG x).w.users = Map.insert n u x.w.users) ∧
+    (∃ cn' : Conn, cn'.id = cnG.id ∧ cn'.authenticated = cnG.authenticated ∧ cn'.nick = some n ∧
+      (commitWith cfg c r cnG x).w.conns = (x.w.setConn cn').conns) := by
+  rcases cnG with ⟨id, hostname, nick, name, realname, password, source, authenticated, registered,
+    capsNeg, multiPrefix, quit, hasSender, hasQuitSender, hasPingSender, pongPending, killedBy⟩
+  simp only at hn hs hq
+  subst hn hs hq
+  unfold commitWith
+  simp only [ht, Bool.not_false, Bool.not_true, Bool.or_self, Bool.false_eq_true, ↓reduceIte]
+  let u : User :=
+    { hostname := hostname, name := name.getD [], realname := realname.getD [], source := source,
+      modes := { cfg.defaultUserModes with registered := cfg.defaultUserModes.registered || r },
+      history := { username := name.getD [], hostname := hostname, realname := realname.getD [] },
+      owner := c }
+  let cnW : Bool → Conn := fun b =>
+    { id := id, hostname := hostname, nick := some n, name := name, realname := realname,
+      password := password, source := source, authenticated := authenticated, registered := r,
+      capsNeg := capsNeg, multiPrefix := multiPrefix, quit := quit, hasSender := false,
+      hasQuitSender := false, hasPingSender := b, pongPending := pongPending, killedBy := killedBy }
+  split
+  · refine ⟨⟨u, rfl, ?_⟩, ⟨cnW false, rfl, rfl, rfl, ?_⟩⟩
+    · simp only [Ctx.setConn_w, World.setConn_users, welcomeBurst_users, Ctx.modifyW_w,
+        addUser_users]
+      rfl
+    · simp only [Ctx.setConn_w]
+      rw [setConn_conns_congr _ (welcomeBurst_conns _ _ _ _)]
+      simp only [Ctx.modifyW_w, Ctx.setConn_w]
+      rw [setConn_conns_congr _ (addUser_conns _ _ _), setConn_setConn_same]
+      rfl
+  · refine ⟨⟨u, rfl, ?_⟩, ⟨cnW hasPingSender, rfl, rfl, rfl, ?_⟩⟩
+    · simp only [Ctx.panic_w, World.panic_users, welcomeBurst_users, Ctx.modifyW_w, Ctx.setConn_w,
+        addUser_users, World.setConn_users]
+      rfl
+    · simp only [Ctx.panic_w, World.panic_conns, welcomeBurst_conns, Ctx.modifyW_w, Ctx.setConn_w,
+        addUser_conns]
+      rfl
+
+theorem run_nick_win {cfg : Cfg} {c : Nat} {n : Str} {σ : CState} {cn : Conn} {r : Bool}
+    (h : σ.w.conn? c = some cn) (ha : cn.authenticated = false)
+    (ht : Map.contains n σ.w.users = false)
+    (hd : authDecision cfg (cn.setNick n) = .decided true r)
+    (hs : cn.hasSender = true) (hq : cn.hasQuitSender = true) :
+    Won c n σ (runSections cfg (nickSections c n) σ) := by
+  have hid : cn.id = c := conn?_id h
+  simp only [nickSections, runSections_cons, runSections_nil]
+  have hb := run_before_commit (cfg := cfg) (f := fun σ => σ) (g := fun σ => σ)
+    (IndepT.id c) (IndepT.id c) h ha ht hd
+  rw [hb, step_authCommit (r := r) (by simp), commitStep_eq]
+  have hid2 : ({ cn.setNick n with authenticated := true } : Conn).id = c := hid
+  have e1 : ({ w := ((σ.setConn { cn.setNick n with authenticated := true }).setPc c
+      (.toCommit r)).w } : Ctx) =
+      ({ w := σ.w } : Ctx).setConn { cn.setNick n with authenticated := true } := rfl
+  have h0 : ({ w := σ.w } : Ctx).w.conn? c = some cn := h
+  rw [e1, ctx_conn_setConn_self _ h0 hid2]
+  obtain ⟨⟨u, hu, husers⟩, ⟨cn', hid', hauth', hnick', hconns⟩⟩ :=
+    commitWith_win (cfg := cfg) (c := c) (r := r)
+      (cnG := { cn.setNick n with authenticated := true }) (n := n)
+      (({ w := σ.w } : Ctx).setConn { cn.setNick n with authenticated := true })
+      rfl ht hs hq
+  have hidc : cn'.id = c := hid'.trans hid
+  have hcG : (σ.w.setConn { cn.setNick n with authenticated := true }).conn? c =
+      some { cn.setNick n with authenticated := true } := conn?_setConn_self _ h hid2
+  refine ⟨?_, ⟨u, ?_, hu⟩, ⟨cn', ?_, hauth', hnick'⟩, ?_⟩
+  · show Map.contains n (commitWith cfg c r _ _).w.users = true
+    rw [husers]; simp [Map.contains]
+  · show Map.lookup n (commitWith cfg c r _ _).w.users = some u
+    rw [husers]; simp
+  · show (commitWith cfg c r _ _).w.conn? c = some cn'
+    rw [conn?_congr hconns]
+    exact conn?_setConn_self _ hcG hidc
+  · intro d hdc
+    refine ⟨?_, ?_⟩
+    · show (commitWith cfg c r _ _).w.conn? d = σ.w.conn? d
+      rw [conn?_congr hconns, Ctx.setConn_w, conn?_setConn_ne _ _ _ (by rw [hidc]; exact hdc.symm),
+        conn?_setConn_ne _ _ _ (by rw [hid2]; exact hdc.symm)]
+    · have := lift_others ((σ.setConn { cn.setNick n with authenticated := true }).setPc c
+        (.toCommit r)) c ⟨.idle, commitWith cfg c r { cn.setNick n with authenticated := true }
+          (({ w := σ.w } : Ctx).setConn { cn.setNick n with authenticated := true })⟩ d hdc
+      rw [this.1, this.2]
+      exact ⟨CState.setPc_pc_ne _ _ _ _ hdc, rfl⟩
+
+
+theorem race_last {cfg : Cfg} {c d : Nat} {n : Str} {σ0 : CState} {cnc cnd : Conn} {rc rd : Bool}
+    {p0 p1 p2 : List Section} (hcd : c ≠ d)
+    (hc : σ0.w.conn? c = some cnc) (hac : cnc.authenticated = false)
+    (hd : σ0.w.conn? d = some cnd) (had : cnd.authenticated = false) (hpd : σ0.pc d = .idle)
+    (ht : Map.contains n σ0.w.users = false)
+    (hdc : authDecision cfg (cnc.setNick n) = .decided true rc)
+    (hdd : authDecision cfg (cnd.setNick n) = .decided true rd)
+    (hs : cnc.hasSender = true) (hq : cnc.hasQuitSender = true)
+    (hp : p0 ++ p1 ++ p2 = nickSections c n) :
+    Won c n σ0 (runSections cfg (nickSections c n) σ0) ∧
+    runSections cfg (nickSections c n ++ nickSections d n) σ0 =
+      (runSections cfg (nickSections c n) σ0).addDir d
+        [srvLine cfg (ErrNicknameInUse433 cnd.clientName n)] ∧
+    (runSections cfg (p0 ++ nickInterleaved d n p1 p2) σ0 =
+        (runSections cfg (nickSections c n) σ0).addDir d
+          [srvLine cfg (ErrNicknameInUse433 cnd.clientName n)] ∨
+     runSections cfg (p0 ++ nickInterleaved d n p1 p2) σ0 =
+        ((runSections cfg (nickSections c n) σ0).setConn (cornerConn cnd n rd)).addDir d
+          [srvLine cfg (ErrNicknameInUse433 n n)]) := by
+  have hwon := run_nick_win (cfg := cfg) hc hac ht hdc hs hq
+  have hdc' : d ≠ c := fun e => hcd e.symm
+  obtain ⟨hWd, hWpc, _⟩ := hwon.others d hdc'
+  have hWd' := hWd.trans hd
+  have hWpc' := hWpc.trans hpd
+  have hind : ∀ s ∈ nickSections c n, SecIndep cfg d s := secIndep_nickSections cfg n hcd
+  have hi0 : ∀ s ∈ p0, SecIndep cfg d s := fun s hs' => hind s (by rw [← hp]; simp [hs'])
+  have hi1 : ∀ s ∈ p1, SecIndep cfg d s := fun s hs' => hind s (by rw [← hp]; simp [hs'])
+  have hi2 : ∀ s ∈ p2, SecIndep cfg d s := fun s hs' => hind s (by rw [← hp]; simp [hs'])
+  have i0 := indepT_run hi0
+  have hW : runSections cfg (p1 ++ p2) (runSections cfg p0 σ0) =
+      runSections cfg (nickSections c n) σ0 := by
+    rw [← runSections_append, ← List.append_assoc, hp]
+  have hS : runSections cfg (nickSections c n ++ nickSections d n) σ0 =
+      (runSections cfg (nickSections c n) σ0).addDir d
+        [srvLine cfg (ErrNicknameInUse433 cnd.clientName n)] := by
+    rw [runSections_append, run_nick_taken hWd' had hWpc' hwon.taken]
+  refine ⟨hwon, hS, ?_⟩
+  have h' : (runSections cfg p0 σ0).w.conn? d = some cnd := (i0.conn_eq _).trans hd
+  have hp' : (runSections cfg p0 σ0).pc d = .idle := (i0.pc_eq _).trans hpd
+  rw [runSections_append]
+  cases ht' : Map.contains n (runSections cfg p0 σ0).w.users with
+  | true =>
+    left
+    rw [serial_first hi1 hi2 h' hp' (Or.inr (Or.inl ht')), List.append_assoc, runSections_append,
+      run_nick_taken h' had hp' ht', (indepT_run (c := d) (ss := p1 ++ p2) (by
+        intro s hs'; rcases List.mem_append.mp hs' with e | e
+        · exact hi1 s e
+        · exact hi2 s e)).comm_dir, hW]
+  | false =>
+    right
+    have ht2 : Map.contains n (runSections cfg (p1 ++ p2) (runSections cfg p0 σ0)).w.users = true := by
+      rw [hW]; exact hwon.taken
+    rw [(serial_corner hi1 hi2 h' hp' had ht' hdd ht2).1, hW]
+
+
+theorem race_decompose_aux {c d : Nat} {n : Str} {l : List Section}
+    (h : Interleave (nickSections c n) [.nickCheck d n, .authDecide d] l) :
+    ∃ p0 p1 p2, p0 ++ p1 ++ p2 = nickSections c n ∧
+      l ++ [.authCommit d] = p0 ++ nickInterleaved d n p1 p2 := by
+  obtain ⟨p0, X1, l1, e1, e2, h1⟩ := h.split_right
+  obtain ⟨p1, X2, l2, e3, e4, h2⟩ := h1.split_right
+  have e5 := h2.eq_of_nil_right
+  refine ⟨p0, p1, X2, ?_, ?_⟩
+  · rw [e1, e3, List.append_assoc]
+  · rw [e2, e4, e5]; simp [nickInterleaved]
+
+theorem race_decompose {c d : Nat} {n : Str} {l : List Section}
+    (h : Interleave (nickSections c n) (nickSections d n) l) :
+    (∃ p0 p1 p2, p0 ++ p1 ++ p2 = nickSections c n ∧ l = p0 ++ nickInterleaved d n p1 p2) ∨
+    (∃ q0 q1 q2, q0 ++ q1 ++ q2 = nickSections d n ∧ l = q0 ++ nickInterleaved c n q1 q2) := by
+  have hc : nickSections c n = [.nickCheck c n, .authDecide c] ++ [.authCommit c] := rfl
+  have hd : nickSections d n = [.nickCheck d n, .authDecide d] ++ [.authCommit d] := rfl
+  have h' := h
+  rw [hc, hd] at h'
+  rcases h'.last_cases with ⟨l', rfl, hl⟩ | ⟨l', rfl, hl⟩
+  · left; rw [← hc] at hl; exact race_decompose_aux hl
+  · right; rw [← hd] at hl; exact race_decompose_aux hl.symm
+
+
+/-! ### movers -/
+
+theorem lift_decideStep' (cfg : Cfg) (c : Nat) (σ : CState) :
+    lift σ c (decideStep cfg c { w := σ.w }) =
+      decideOut cfg c (({ w := σ.w } : Ctx).conn c) σ := by
+  simp only [decideStep, decideOut]
+  cases authDecision cfg (({ w := σ.w } : Ctx).conn c) with
+  | notReady => exact lift_silent σ c .idle _
+  | maskMismatch => exact lift_lines σ c .idle σ.w _
+  | decided good r =>
+    cases good with
+    | true => exact lift_silent σ c (.toCommit r) _
+    | false => exact lift_lines σ c .idle _ _
+
+theorem ctx_conn_congr {w w' : World} (c : Nat) (h : w'.conn? c = w.conn? c) :
+    ({ w := w' } : Ctx).conn c = ({ w := w } : Ctx).conn c := by
+  simp only [Ctx.conn, h]
+
+/-- A2 commutes with everything that does not touch the local components of `c` -/
+theorem authDecide_mover' {cfg : Cfg} {c : Nat} {f : CState → CState} (hf : IndepT c f)
+    (σ : CState) :
+    stepSection cfg (.authDecide c) (f σ) = f (stepSection cfg (.authDecide c) σ) := by
+  by_cases hpc : σ.pc c = .toDecide
+  · have hpc' : (f σ).pc c = .toDecide := (hf.pc_eq σ).trans hpc
+    have e1 : stepSection cfg (.authDecide c) (f σ) =
+        lift (f σ) c (decideStep cfg c { w := (f σ).w }) := by
+      rw [stepSection_eq]; simp only [sectionCtx, Section.conn, execSection, hpc']
+    have e2 : stepSection cfg (.authDecide c) σ = lift σ c (decideStep cfg c { w := σ.w }) := by
+      rw [stepSection_eq]; simp only [sectionCtx, Section.conn, execSection, hpc]
+    rw [e1, e2, lift_decideStep', lift_decideStep', ctx_conn_congr c (hf.conn_eq σ),
+      decideOut_comm hf (ctx_conn_id _ c)]
+  · have hpc' : (f σ).pc c ≠ .toDecide := by rw [hf.pc_eq σ]; exact hpc
+    rw [step_authDecide_skip hpc', step_authDecide_skip hpc]
+
+/-- A1 commutes with everything that does not touch the local components of `c` and does not
+    change whether the nick is taken -/
+theorem nickCheck_mover' {cfg : Cfg} {c : Nat} {n : Str} {f : CState → CState} (hf : IndepT c f)
+    {σ : CState} {cn : Conn} (h : σ.w.conn? c = some cn)
+    (hsame : Map.contains n (f σ).w.users = Map.contains n σ.w.users) :
+    stepSection cfg (.nickCheck c n) (f σ) = f (stepSection cfg (.nickCheck c n) σ) := by
+  have h' : (f σ).w.conn? c = some cn := (hf.conn_eq σ).trans h
+  have hid0 : cn.id = c := conn?_id h
+  have hid : (cn.setNick n).id = c := hid0
+  cases ha : cn.authenticated with
+  | true => rw [step_nickCheck_auth h' ha, step_nickCheck_auth h ha]
+  | false =>
+    cases ht : Map.contains n σ.w.users with
+    | true =>
+      rw [step_nickCheck_taken h' ha (hsame.trans ht), step_nickCheck_taken h ha ht, hf.comm_pc,
+        hf.comm_dir]
+    | false =>
+      rw [step_nickCheck_free h' ha (hsame.trans ht), step_nickCheck_free h ha ht, hf.comm_pc,
+        hf.comm_conn _ _ hid]
+
+/-! ### A3 decides on the state at commit time -/
+
+theorem step_authCommit_free {cfg : Cfg} {c : Nat} {σ : CState} {r : Bool} {cn : Conn} {n : Str}
+    (hpc : σ.pc c = .toCommit r) (h : σ.w.conn? c = some cn) (hn : cn.nick = some n)
+    (ht : Map.contains n σ.w.users = false) (hs : cn.hasSender = true)
+    (hq : cn.hasQuitSender = true) :
+    (∃ u : User, u.owner = c ∧
+      (stepSection cfg (.authCommit c) σ).w.users = Map.insert n u σ.w.users) ∧
+    (∃ cn' : Conn, (stepSection cfg (.authCommit c) σ).w.conn? c = some cn' ∧
+      cn'.authenticated = cn.authenticated ∧ cn'.nick = some n) := by
+  have hid : cn.id = c := conn?_id h
+  have hc : ({ w := σ.w } : Ctx).conn c = cn := ctx_conn_of h
+  rw [step_authCommit hpc, commitStep_eq, hc]
+  obtain ⟨⟨u, hu, husers⟩, ⟨cn', hid', hauth', hnick', hconns⟩⟩ :=
+    commitWith_win (cfg := cfg) (c := c) (r := r) (cnG := cn) (n := n) ({ w := σ.w } : Ctx)
+      hn ht hs hq
+  refine ⟨⟨u, hu, husers⟩, ⟨cn', ?_, hauth', hnick'⟩⟩
+  show (commitWith cfg c r cn { w := σ.w }).w.conn? c = some cn'
+  rw [conn?_congr hconns]
+  exact conn?_setConn_self _ h (hid'.trans hid)
+
+/-! ### output streams -/
+
+theorem run_dir (cfg : Cfg) (d : Nat) (dl : List Section → CState → List Str)
+    (hnil : ∀ σ, dl [] σ = [])
+    (hcons : ∀ s ss σ, dl (s :: ss) σ =
+      (if s.conn = d then (sectionCtx cfg s σ).x.direct else []) ++ dl ss (stepSection cfg s σ))
+    (ss : List Section) (σ : CState) :
+    (runSections cfg ss σ).dir d = σ.dir d ++ dl ss σ := by
+  induction ss generalizing σ with
+  | nil => simp [runSections_nil, hnil]
+  | cons s ss ih =>
+    rw [runSections_cons, ih, hcons]
+    by_cases h : s.conn = d
+    · simp [stepSection, h]
+    · have h' : ¬ d = s.conn := fun e => h e.symm
+      simp [stepSection, h, h']
+
+theorem Interleave.append {α : Type} {a b l a' b' l' : List α} (h : Interleave a b l)
+    (h' : Interleave a' b' l') : Interleave (a ++ a') (b ++ b') (l ++ l') := by
+  induction h with
+  | nil => exact h'
+  | left _ ih => exact .left ih
+  | right _ ih => exact .right ih
+
+theorem Interleave.concat {α : Type} (a b : List α) : Interleave a b (a ++ b) := by
+  have := Interleave.append (Interleave.nil_right a) (Interleave.nil_left b)
+  simpa using this
+
+
+/-! ### JOIN: what the three loops do to the channel table -/
+
+theorem foldl_reply_w (cfg : Cfg) (es : List Str) (x : Ctx) :
+    (es.foldl (fun x e => x.reply cfg e) x).w = x.w := by
+  induction es generalizing x with
+  | nil => rfl
+  | cons e es ih => simp only [List.foldl_cons]; rw [ih]; rfl
+
+theorem ite_panic_channels (b : Prop) [Decidable b] (x : Ctx) (s : String) :
+    (if b then x.panic s else x).w.channels = x.w.channels := by
+  split <;> rfl
+
+theorem namesLines_channels (cfg : Cfg) (cn : Conn) (chn : Str) (ch : Channel) (us : Map User)
+    (x : Ctx) : (namesLines cfg cn chn ch us x).w.channels = x.w.channels := by
+  unfold namesLines
+  simp only
+  generalize chunks 20 _ = l
+  have : ∀ (y : Ctx), (l.foldl (fun x chunk => x.reply cfg
+      (RplNameReply353 cn.clientName (if ch.modes.secret = true then ['@'] else ['=']) chn chunk)) y).w
+      = y.w := by
+    intro y
+    induction l generalizing y with
+    | nil => rfl
+    | cons e es ih => simp only [List.foldl_cons]; rw [ih]; rfl
+  rw [this]
+  exact ite_panic_channels _ _ _
+
+theorem ite_w_channels {b : Prop} [Decidable b] {y z : Ctx} {cs : Map Channel}
+    (hy : y.w.channels = cs) (hz : z.w.channels = cs) : (if b then y else z).w.channels = cs := by
+  split <;> assumption
+
+theorem sendNames_channels (cfg : Cfg) (c : Nat) (chn : Str) (ch : Channel) (e : Bool) (x : Ctx) :
+    (sendNamesFromChannel cfg c chn ch e x).w.channels = x.w.channels := by
+  unfold sendNamesFromChannel
+  simp only
+  refine ite_w_channels (ite_w_channels ?_ ?_) rfl
+  · simp only [Ctx.reply_w, namesLines_channels]
+  · exact namesLines_channels ..
+
+theorem foldl_sendDisplay_channels (nick src t : Str) (l : List Str) (y : Ctx) :
+    (l.foldl (fun x n => if (n != nick) = true then x.sendDisplay n src t else x) y).w.channels
+      = y.w.channels := by
+  induction l generalizing y with
+  | nil => rfl
+  | cons a l ih =>
+    simp only [List.foldl_cons]
+    rw [ih]
+    exact ite_w_channels (by simp) rfl
+
+theorem joinAnnounce_channels (cfg : Cfg) (c : Nat) (nick : Str) (ds : List (Bool × Bool))
+    (chs : List Str) (x : Ctx) :
+    (joinAnnounce cfg c nick ds chs x).w.channels = x.w.channels := by
+  induction ds generalizing chs x with
+  | nil => cases chs <;> rfl
+  | cons d ds ih =>
+    obtain ⟨join, create⟩ := d
+    cases chs with
+    | nil => rfl
+    | cons chn chs =>
+      simp only [joinAnnounce]
+      rw [ih]
+      cases join with
+      | false => rfl
+      | true =>
+        simp only [↓reduceIte]
+        cases Map.lookup chn x.w.channels with
+        | none => rfl
+        | some ch =>
+          simp only
+          rw [foldl_sendDisplay_channels, sendNames_channels]
+          cases ch.topic <;> rfl
+
+
+/-- the key list the handler builds -/
+def joinKeys (keys : Option (List Str)) : List (Option Str) :=
+  match keys with
+  | some ks => ks.map some
+  | none => []
+
+theorem processJoin_channels (cfg : Cfg) (c : Nat) (chs : List Str) (keys : Option (List Str))
+    (x : Ctx) :
+    (processJoin cfg c chs keys x).w.channels =
+      match (x.conn c).nick with
+      | none => x.w.channels
+      | some nick =>
+        match Map.lookup nick x.w.users with
+        | none => x.w.channels
+        | some user =>
+          (joinApply nick (joinDecide cfg x.w (x.conn c) nick user.invitedTo chs (joinKeys keys)
+            user.channels.length).1 chs x.w).channels := by
+  unfold processJoin
+  simp only
+  cases (x.conn c).nick with
+  | none => rfl
+  | some nick =>
+    simp only
+    cases Map.lookup nick x.w.users with
+    | none => rfl
+    | some user =>
+      simp only [joinAnnounce_channels, Ctx.modifyW_w, foldl_reply_w]
+      rfl
+
+theorem join_bool_aux (do3 notFull mem : Bool)
+    (h : ((do3 && (!do3 || notFull)) && !mem) = true) : mem = false ∧ notFull = true := by
+  cases do3 <;> cases notFull <;> cases mem <;> simp_all
+
+/-- an accepted JOIN to an existing channel: not yet a member, and below the limit -/
+theorem joinCheckExisting_join {ch : Channel} {chn : Str} {key : Option (Option Str)}
+    {src nick client : Str} {inv : KSet}
+    (h : (joinCheckExisting ch chn key src nick client inv).1 = true) :
+    Map.contains nick ch.users = false ∧ ∀ l, ch.modes.clientLimit = some l → ch.users.length < l := by
+  unfold joinCheckExisting at h
+  simp only at h
+  obtain ⟨hm, hnf⟩ := join_bool_aux _ _ _ h
+  refine ⟨hm, fun l hl => ?_⟩
+  rw [hl] at hnf
+  simpa using hnf
+
+/-- what the first loop guarantees about its decisions, w.r.t. the pre-state `w` -/
+def DecSpec (w : World) (nick : Str) : List (Bool × Bool) → List Str → Prop
+  | (j, cr) :: ds, chn :: chs =>
+    (match Map.lookup chn w.channels with
+     | some C => cr = false ∧ (j = true → Map.contains nick C.users = false ∧
+         ∀ l, C.modes.clientLimit = some l → C.users.length < l)
+     | none => cr = true) ∧ DecSpec w nick ds chs
+  | _, _ => True
+
+theorem joinDecide_spec (cfg : Cfg) (w : World) (cn : Conn) (nick : Str) (inv : KSet) :
+    ∀ (chs : List Str) (keys : List (Option Str)) (cnt : Nat),
+      DecSpec w nick (joinDecide cfg w cn nick inv chs keys cnt).1 chs := by
+  intro chs
+  induction chs with
+  | nil => intro keys cnt; trivial
+  | cons chn rest ih =>
+    intro keys cnt
+    unfold joinDecide
+    simp only
+    cases hl : Map.lookup chn w.channels with
+    | none =>
+      simp only
+      cases cfg.maxJoins with
+      | none => simp only [DecSpec, hl]; exact ⟨trivial, ih _ _⟩
+      | some mj => simp only [DecSpec, hl]; exact ⟨trivial, ih _ _⟩
+    | some C =>
+      simp only
+      cases cfg.maxJoins with
+      | none =>
+        simp only [DecSpec, hl]
+        exact ⟨⟨trivial, fun hj => joinCheckExisting_join hj⟩, ih _ _⟩
+      | some mj =>
+        simp only [DecSpec, hl, Bool.and_eq_true]
+        exact ⟨⟨trivial, fun hj => joinCheckExisting_join hj.1⟩, ih _ _⟩
+
+
+theorem Map.insert_insert' {α : Type} (k : Str) (v v' : α) (m : Map α) :
+    Map.insert k v (Map.insert k v' m) = Map.insert k v m := by
+  induction m with
+  | nil => simp [Map.insert]
+  | cons p m ih =>
+    obtain ⟨k', v''⟩ := p
+    by_cases h : k' = k
+    · simp [Map.insert, h]
+    · simp [Map.insert, h, ih]
+
+theorem Map.length_insert_none {α : Type} (k : Str) (v : α) (m : Map α)
+    (h : Map.lookup k m = none) : (Map.insert k v m).length = m.length + 1 := by
+  induction m with
+  | nil => rfl
+  | cons p m ih =>
+    obtain ⟨k', v'⟩ := p
+    by_cases hk : k' = k
+    · simp [Map.lookup, hk] at h
+    · simp only [Map.lookup, hk, ↓reduceIte] at h
+      simp [Map.insert, hk, ih h]
+
+theorem KSet.insert_idem' (k : Str) (s : KSet) : KSet.insert k (KSet.insert k s) = KSet.insert k s := by
+  unfold KSet.insert
+  by_cases h : KSet.mem k s = true
+  · simp [h]
+  · have : KSet.mem k (s ++ [k]) = true := by simp [KSet.mem]
+    simp [h, this]
+
+theorem Channel.addUser_idem' (C : Channel) (n : Str) : (C.addUser n).addUser n = C.addUser n := by
+  unfold Channel.addUser
+  simp only [Map.insert_insert']
+  cases KSet.mem n C.defaultModes.halfOperators <;> cases KSet.mem n C.defaultModes.operators <;>
+    cases KSet.mem n C.defaultModes.founders <;> cases KSet.mem n C.defaultModes.voices <;>
+    cases KSet.mem n C.defaultModes.protecteds <;> simp [KSet.insert_idem']
+
+/-- the state of channel `ch` during the second loop of a JOIN by `nick`, relative to its state
+    `C0` before the command: untouched, or `nick` was accepted (not a member, below the limit)
+    and added once -/
+def ChanStep (nick : Str) (C0 C : Channel) : Prop :=
+  C = C0 ∨
+   (Map.contains nick C0.users = false ∧
+    (∀ l, C0.modes.clientLimit = some l → C0.users.length < l) ∧ C = C0.addUser nick)
+
+theorem joinApply_existing {w0 : World} {nick ch : Str} {C0 : Channel}
+    (h0 : Map.lookup ch w0.channels = some C0) :
+    ∀ (ds : List (Bool × Bool)) (chs : List Str) (w : World), DecSpec w0 nick ds chs →
+      (∃ C, Map.lookup ch w.channels = some C ∧ ChanStep nick C0 C) →
+      ∃ C, Map.lookup ch (joinApply nick ds chs w).channels = some C ∧ ChanStep nick C0 C := by
+  intro ds
+  induction ds with
+  | nil => intro chs w _ h; cases chs <;> exact h
+  | cons d ds ih =>
+    obtain ⟨j, cr⟩ := d
+    intro chs w hspec hinv
+    cases chs with
+    | nil => exact hinv
+    | cons chn chs =>
+      simp only [DecSpec] at hspec
+      obtain ⟨hd, hrest⟩ := hspec
+      simp only [joinApply]
+      apply ih chs _ hrest
+      cases j with
+      | false => exact hinv
+      | true =>
+        simp only [↓reduceIte]
+        obtain ⟨C, hC, hus⟩ := hinv
+        by_cases hch : chn = ch
+        · subst hch
+          rw [h0] at hd
+          obtain ⟨hcr, hj⟩ := hd
+          obtain ⟨hmem, hfull⟩ := hj rfl
+          subst hcr
+          simp only [Bool.false_eq_true, ↓reduceIte, hC]
+          refine ⟨C.addUser nick, by simp, .inr ⟨hmem, hfull, ?_⟩⟩
+          rcases hus with e | ⟨_, _, e⟩
+          · rw [e]
+          · rw [e, Channel.addUser_idem']
+        · cases cr with
+          | true =>
+            simp only [↓reduceIte]
+            exact ⟨C, by rw [Map.lookup_insert_ne _ _ _ _ hch]; exact hC, hus⟩
+          | false =>
+            simp only [Bool.false_eq_true, ↓reduceIte]
+            cases Map.lookup chn w.channels with
+            | none => exact ⟨C, hC, hus⟩
+            | some Cc =>
+              exact ⟨C, by simp only; rw [Map.lookup_insert_ne _ _ _ _ hch]; exact hC, hus⟩
+
+theorem joinApply_absent {w0 : World} {nick ch : Str}
+    (h0 : Map.lookup ch w0.channels = none) :
+    ∀ (ds : List (Bool × Bool)) (chs : List Str) (w : World), DecSpec w0 nick ds chs →
+      (∀ C, Map.lookup ch w.channels = some C → C = Channel.newOnUserJoin nick) →
+      ∀ C, Map.lookup ch (joinApply nick ds chs w).channels = some C →
+        C = Channel.newOnUserJoin nick := by
+  intro ds
+  induction ds with
+  | nil => intro chs w _ h; cases chs <;> exact h
+  | cons d ds ih =>
+    obtain ⟨j, cr⟩ := d
+    intro chs w hspec hinv
+    cases chs with
+    | nil => exact hinv
+    | cons chn chs =>
+      simp only [DecSpec] at hspec
+      obtain ⟨hd, hrest⟩ := hspec
+      simp only [joinApply]
+      apply ih chs _ hrest
+      cases j with
+      | false => exact hinv
+      | true =>
+        simp only [↓reduceIte]
+        by_cases hch : chn = ch
+        · subst hch
+          rw [h0] at hd
+          simp only at hd
+          subst hd
+          simp only [↓reduceIte]
+          intro C hC
+          simpa using hC.symm
+        · cases cr with
+          | true =>
+            simp only [↓reduceIte]
+            intro C hC
+            rw [Map.lookup_insert_ne _ _ _ _ hch] at hC
+            exact hinv C hC
+          | false =>
+            simp only [Bool.false_eq_true, ↓reduceIte]
+            cases Map.lookup chn w.channels with
+            | none => exact hinv
+            | some Cc =>
+              intro C hC
+              simp only at hC
+              rw [Map.lookup_insert_ne _ _ _ _ hch] at hC
+              exact hinv C hC
+
+
+/-- **JOIN and one existing channel**: after the whole command the channel is as before, or the
+    joining nick (not a member before, limit not reached before) has been added exactly once -/
+theorem processJoin_existing {cfg : Cfg} {c : Nat} {chs : List Str} {keys : Option (List Str)}
+    {x : Ctx} {ch : Str} {C0 : Channel} (h0 : Map.lookup ch x.w.channels = some C0) :
+    ∃ C, Map.lookup ch (processJoin cfg c chs keys x).w.channels = some C ∧
+      (C = C0 ∨ ∃ nick, (x.conn c).nick = some nick ∧ ChanStep nick C0 C) := by
+  rw [processJoin_channels]
+  cases hn : (x.conn c).nick with
+  | none => exact ⟨C0, h0, .inl rfl⟩
+  | some nick =>
+    simp only
+    cases Map.lookup nick x.w.users with
+    | none => exact ⟨C0, h0, .inl rfl⟩
+    | some user =>
+      simp only
+      obtain ⟨C, hC, hs⟩ := joinApply_existing h0 _ chs x.w (joinDecide_spec cfg x.w (x.conn c) nick
+        user.invitedTo chs (joinKeys keys) user.channels.length) ⟨C0, h0, .inl rfl⟩
+      exact ⟨C, hC, .inr ⟨nick, rfl, hs⟩⟩
+
+/-- **JOIN and one absent channel**: if it exists afterwards it is the freshly created one, whose
+    only member, founder and operator is the joining nick -/
+theorem processJoin_absent {cfg : Cfg} {c : Nat} {chs : List Str} {keys : Option (List Str)}
+    {x : Ctx} {ch : Str} (h0 : Map.lookup ch x.w.channels = none) {C : Channel}
+    (hC : Map.lookup ch (processJoin cfg c chs keys x).w.channels = some C) :
+    ∃ nick, (x.conn c).nick = some nick ∧ C = Channel.newOnUserJoin nick := by
+  rw [processJoin_channels] at hC
+  cases hn : (x.conn c).nick with
+  | none => rw [hn] at hC; simp only at hC; rw [h0] at hC; cases hC
+  | some nick =>
+    rw [hn] at hC
+    simp only at hC
+    cases hu : Map.lookup nick x.w.users with
+    | none => rw [hu] at hC; simp only at hC; rw [h0] at hC; cases hC
+    | some user =>
+      rw [hu] at hC
+      simp only at hC
+      exact ⟨nick, rfl, joinApply_absent h0 _ chs x.w (joinDecide_spec cfg x.w (x.conn c) nick
+        user.invitedTo chs (joinKeys keys) user.channels.length)
+        (fun C' h' => by rw [h0] at h'; cases h') C hC⟩
+
+theorem ChanStep.limit {nick : Str} {C0 C : Channel} (h : ChanStep nick C0 C) :
+    C.modes.clientLimit = C0.modes.clientLimit ∧
+    ∀ l, C0.modes.clientLimit = some l → C0.users.length ≤ l → C.users.length ≤ l := by
+  rcases h with rfl | ⟨hm, hf, rfl⟩
+  · exact ⟨rfl, fun _ _ h => h⟩
+  · refine ⟨rfl, fun l hl _ => ?_⟩
+    have hnone : Map.lookup nick C0.users = none := (Map.contains_false_iff _ _).mp hm
+    show (Map.insert nick _ C0.users).length ≤ l
+    rw [Map.length_insert_none _ _ _ hnone]
+    exact hf l hl
 
 end Irc.Conc
